@@ -49,7 +49,10 @@ Named == {Commutator,
           S1("ScalL", "T", R(1, 2), S1("SubSL", "T", FromInt(3), Xn(1))),          \* prefac*(xi - X)
           B2("Prod", Xn(2), B2("Sum", Dn(2), Xn(1))),
           Neg(Neg(Dn(1))),
-          B2("Prod", B2("Prod", Dn(1), Xn(2)), Dn(1))}
+          B2("Prod", B2("Prod", Dn(1), Xn(2)), Dn(1)),
+          \* higher powers of x inside expressions (binomial expansion beyond n = 3)
+          B2("Prod", Xn(4), Dn(1)), B2("Sum", Xn(4), Dn(2)), S1("ScalL", "T", R(1, 2), Xn(4)),
+          B2("Diff", Xn(4), B2("Prod", Xn(2), Xn(2)))}
 ExtraASTs == {Extra[i] : i \in DOMAIN Extra}
 Exprs == Leaves \cup Depth1 \cup Depth2U \cup Named \cup ExtraASTs
 
